@@ -346,7 +346,12 @@ func (m *model) lines() []refLine {
 		ln.exact = math.Abs(ln.cw-ln.avail) <= eps
 		m.position(&ln)
 		ln.y = y
-		ln.h = m.height(s, end)
+		// hanging preserved spaces are glyphs of their inline boxes: the boxes are on the line
+		hEnd := end
+		if r.ws == "pre-wrap" {
+			hEnd = e
+		}
+		ln.h = m.height(s, hEnd)
 		y += ln.h
 		out = append(out, ln)
 		pos = next
